@@ -17,7 +17,7 @@ pub fn def() -> PropDef {
         nontrivial,
         rule: "1-3 publisher clients and 1-4 subscriber actors over 1-2 topics; subscribe in started(), later from a handler, or from outside (Broker::subscribe), re-subscribe, unsubscribe, subscriber termination at arbitrary positions; publishing through Broker::publish, Addr<Broker>::publish, Broker::try_publish and Context::publish; in half of the runs a publish is followed by broker.ping() as a 'processed by now' barrier; x seeded schedules; oracle = must / may / must-not delivery windows from the stamps, at-most-once, one common order extending real-time order; non-trivial = two or more publications reached two or more subscribers with a subscribe, unsubscribe or termination in between; distinct = distinct order of client-op and callback events",
         needed_probes: &["c09_must_checked", "c09_must_not_checked", "c09_order_checked", "c09_dead_subscriber_in_table", "c09_unsubscribed", "c09_resubscribed", "c09_unheld_subscriber"],
-        quick_runs: 100_000,
+        quick_runs: 200_000,
         thorough_runs: 2_000_000,
         block: 1,
         flavours: &["tokio"],
